@@ -100,6 +100,7 @@ def run(repo, rep, tier):
     operation_envelopes_agree(repo, rep, 'C02.R8', 'handlers')
     regex_termination_rule(repo, rep)
     pull_result_invariant(repo, rep)
+    unbounded_int_text_rule(repo, rep)
     r1 = rep.rule('C02.R1', 'only pywbem.Error escapes the reply path '
                   '(raises, data-dependent asserts)')
     r3 = rep.rule('C02.R3', 'attribute lookups are covered by check_node')
@@ -1455,3 +1456,87 @@ def pull_result_invariant(repo, rep):
     if not n:
         raise AnalysisError('_get_rslt_params: no (objects, eos, context) '
                             'return found')
+
+
+def unbounded_int_text_rule(repo, rep):
+    """C02.R11: an integer of unbounded size is not turned into decimal
+    text outside a try that handles ValueError.  `int(text, 16)` (bases 2,
+    8, 16) accepts any number of digits, but converting the result to a
+    decimal string (str(), an f-string, _format()) raises ValueError beyond
+    sys.get_int_max_str_digits() (4300).  In the response parser that
+    happens with the value of a <VALUE> the server sent: if the conversion
+    sits in an `except` block (building the message of the
+    CIMXMLParseError) the ValueError replaces the pywbem error and escapes
+    from the operation."""
+    from ..cfg import stmt_facts
+    r11 = rep.rule('C02.R11', 'values parsed with int(text, 2|8|16) are not '
+                   'formatted where ValueError is not handled')
+    m = repo.module('pywbem/_tupleparse.py')
+    FMT = ('_format', 'str', 'repr', 'format')
+
+    def catches_value_error(tr):
+        for h in tr.handlers:
+            names = [] if h.type is None else [
+                norm(x) for x in (h.type.elts if isinstance(h.type, ast.Tuple)
+                                  else [h.type])]
+            if h.type is None or set(names) & {'ValueError', 'Exception',
+                                               'BaseException'}:
+                return True
+        return False
+    n = 0
+    for f in m.all_funcs():
+        tainted = set()
+        for a in walk_no_nested(f.node):
+            if isinstance(a, ast.Assign) and len(a.targets) == 1 and \
+                    isinstance(a.targets[0], ast.Name) and \
+                    isinstance(a.value, ast.Call) and \
+                    dotted(a.value.func) == 'int' and \
+                    len(a.value.args) == 2 and \
+                    isinstance(a.value.args[1], ast.Constant) and \
+                    a.value.args[1].value in (2, 4, 8, 16, 32):
+                tainted.add(a.targets[0].id)
+        if not tainted:
+            continue
+        n += 1
+        r11.functions.add(f.fq)
+        for st, (_facts, trys) in stmt_facts(f.node).items():
+            if isinstance(st, (ast.If, ast.Try, ast.For, ast.While,
+                               ast.With)):
+                continue
+            sinks = []
+            for c in ast.walk(st):
+                if isinstance(c, ast.Call) and dotted(c.func) in FMT and \
+                        any(isinstance(a, ast.Name) and a.id in tainted
+                            for a in c.args):
+                    sinks.append(c)
+                elif isinstance(c, ast.FormattedValue) and \
+                        isinstance(c.value, ast.Name) and \
+                        c.value.id in tainted:
+                    sinks.append(c)
+                elif isinstance(c, ast.BinOp) and \
+                        isinstance(c.op, ast.Mod) and \
+                        isinstance(c.left, ast.Constant) and \
+                        isinstance(c.left.value, str) and \
+                        any(isinstance(x, ast.Name) and x.id in tainted
+                            for x in ast.walk(c.right)):
+                    sinks.append(c)
+            for c in sinks:
+                r11.sites += 1
+                caught = any(part == 'body' and catches_value_error(tr)
+                             for tr, part in trys)
+                r11.ob(caught, '%s|%s' % (f.qualname, norm(c, 60)),
+                       {'unbounded': sorted(tainted)})
+                if not caught:
+                    rep.finding(r11, f.qualname, norm(c, 70),
+                                'unbounded-int-text', m.relpath, c.lineno,
+                                '%s comes from int(text, 2|8|16), which '
+                                'accepts any number of digits; formatting it '
+                                'here raises ValueError (more than 4300 '
+                                'digits) where no handler converts it: a '
+                                '<VALUE>0xfff...f</VALUE> of a few thousand '
+                                'digits in a response makes the operation '
+                                'raise ValueError instead of '
+                                'CIMXMLParseError' % sorted(tainted))
+    if not n:
+        raise AnalysisError('C02.R11: no int(text, 16) in the response '
+                            'parser (anchor moved)')
